@@ -17,6 +17,8 @@ package storage
 import (
 	"context"
 	"os"
+	"path/filepath"
+	"strings"
 	"time"
 
 	"github.com/dgraph-io/badger/v3"
@@ -68,6 +70,10 @@ func (s *SSD) Configure(config map[string]interface{}) error {
 		return err
 	}
 
+	// A process killed right after creating a memtable or a value log file leaves it empty,
+	// such a file holds nothing but prevents the store from opening
+	removeEmptyFiles(dir, ".mem", ".vlog")
+
 	// Create the options
 	opts := badger.DefaultOptions(dir)
 	opts.SyncWrites = false
@@ -85,6 +91,22 @@ func (s *SSD) Configure(config map[string]interface{}) error {
 	s.retain = configUint32(config, "retain", defaultRetain)
 	s.cancel = async.Repeat(context.Background(), 30*time.Minute, s.GC)
 	return nil
+}
+
+// removeEmptyFiles removes zero-length files with one of the specified extensions.
+func removeEmptyFiles(dir string, extensions ...string) {
+	files, err := os.ReadDir(dir)
+	if err != nil {
+		return
+	}
+
+	for _, file := range files {
+		for _, ext := range extensions {
+			if info, err := file.Info(); err == nil && strings.HasSuffix(file.Name(), ext) && info.Mode().IsRegular() && info.Size() == 0 {
+				os.Remove(filepath.Join(dir, file.Name()))
+			}
+		}
+	}
 }
 
 // Store appends the messages to the store.
